@@ -87,7 +87,8 @@ PInvRoundTrip   == row > 0 => RoundTrip(PCur)
 PInvParens      == row > 0 => ParensNeeded(PCur)
 PInvContext     == row > 0 => FilterContext(PCur)
 PInvMembership  == row > 0 => MembershipAgrees(PCur)
-PInvCount       == row > 0 => Cardinality(PrintSet(PCur)) = Cardinality(Orderings(PCur))
+PInvCount       == row > 0 => /\ Cardinality(PrintSet(PCur)) = Cardinality(Orderings(PCur))
+                              /\ Cardinality(Orderings(PCur)) = OrderingCount(PCur)
 
 \* Unambiguous, stated globally over the depth-2 universe UU (in both tiers): the PrintSets are
 \* pairwise disjoint iff their union has as many elements as they have together.  (For the
